@@ -210,3 +210,54 @@ package spg
 //@   ensures [C11] entropy:   res.Entropy == entropy
 //@   ensures [C11] same:      len(res.tokens) == len(ts) &&
 //@        forall(int(j), trig(res.tokens[j]), 0 <= j && j < len(ts) ==> res.tokens[j].value == ts[j].value && res.tokens[j].tType == ts[j].tType)
+
+// ---------------------------------------------------------------- word_gen.go
+
+//@ func NewWordList
+//@   ensures [C10,C13] empty:   len(list) == 0 ==> err != nil && res == nil
+//@   ensures [C10,C13] nonempty: len(list) > 0 && len(list) <= 4294967295 ==> err == nil && res != nil
+//@   ensures [C10] xor:         (res == nil) == (err != nil)
+//@   ensures [C10] fresh:       err == nil ==> fresh(res) && fresh(res.words)
+//@   ensures [C10,C04,C05] kept: err == nil ==> forall(str(w), inS(arr(res.words), off(res.words), len(res.words), w) == keptS(old(arr(list)), off(list), len(list), w))
+//@   ensures [C10,C04] nodup:   err == nil ==> forall(int(i), int(j), 0 <= i && i < j && j < len(res.words) ==> res.words[i] != res.words[j])
+//@   ensures [C08,C06] uncap:   err == nil ==> res.unCapitalizableCount >= 0 &&
+//@        ((res.unCapitalizableCount == 0) == forall(int(i), 0 <= i && i < len(res.words) ==> title(res.words[i]) != res.words[i]))
+//@   ensures [C10,C15] caller-slice: forall(int(i), 0 <= i && i < len(list) ==> list[i] == old(list[i]))
+//@   loop 1 invariant [C10] seen:   forall(str(w), dom(unique, w) == inS(old(arr(list)), off(list), it, w))
+//@   loop 1 invariant [C10] values: forall(str(w), dom(unique, w) ==> unique[w])
+//@   loop 2 invariant [C10] start:  forall(str(w), entry(dom(unique, w)) == inS(old(arr(list)), off(list), len(list), w))
+//@   loop 2 invariant [C10] values: forall(str(w), dom(unique, w) ==> unique[w])
+//@   loop 2 invariant [C10] subset: forall(str(c), dom(unique, c) ==> entry(dom(unique, c)))
+//@   loop 2 invariant [C10] only-twins: forall(str(c), entry(dom(unique, c)) && !dom(unique, c) ==>
+//@                                    exists(str(w), entry(dom(unique, w)) && w != c && title(w) == c))
+//@   loop 2 invariant [C10] no-twin-left: forall(str(w), visited(w) && dom(unique, w) && title(w) != w ==> !dom(unique, title(w)))
+//@   loop 3 invariant [C10] normal: forall(str(w), dom(unique, w) == keptS(old(arr(list)), off(list), len(list), w))
+//@   loop 3 invariant [C10] enum:   forall(str(w), inS(arr(ourWords), off(ourWords), len(ourWords), w) == visited(w))
+//@   loop 3 invariant [C10] inmap:  forall(str(w), visited(w) ==> dom(unique, w))
+//@   loop 3 invariant [C10] nodup:  forall(int(i), int(j), 0 <= i && i < j && j < len(ourWords) ==> ourWords[i] != ourWords[j])
+//@   loop 3 invariant [C10] fresh:  cap(ourWords) == 0 || arrid(ourWords) > old(alloc)
+//@   loop 3 invariant [C08] uncap:  unCapable >= 0 && ((unCapable == 0) == forall(int(i), 0 <= i && i < len(ourWords) ==> title(ourWords[i]) != ourWords[i]))
+//@   loop 3 invariant [C10,C15] caller-slice: forall(int(i), 0 <= i && i < len(list) ==> list[i] == old(list[i]))
+
+//@ func (WordList).Size
+//@   ensures [C10,C04,C13] size: res == ite(len(wl.words) > 4294967295, 4294967295, len(wl.words))
+
+//@ func (WLRecipe).Size
+//@   ensures [C13] nolist: r.list == nil ==> res == 0
+//@   ensures [C10,C04] size: r.list != nil ==> res == ite(len(r.list.words) > 4294967295, 4294967295, len(r.list.words))
+
+//@ func (*WordList).isAllCapitalizable
+//@   requires [C08] nonnil: wl != nil
+//@   ensures  [C08,C06] zero: res == (wl.unCapitalizableCount <= 0)
+
+//@ func entropySimple
+//@   ensures [C07,C08] value: res == real(length) * log2(real(nelem))
+
+//@ func (WLRecipe).Entropy
+//@   requires [C08] list: r.list != nil
+//@   modifies pos, ctr, sfcalls
+//@   ensures [C08,C06] formula: res == real(r.Length) * log2(real(ite(len(r.list.words) > 4294967295, 4294967295, len(r.list.words)))) +
+//@        ite(r.list.unCapitalizableCount <= 0, ite(r.Capitalize == CSRandom, real(r.Length), ite(r.Capitalize == CSOne, log2(real(r.Length)), 0.0)), 0.0) +
+//@        (real(r.Length) - 1.0) * ite(r.SeparatorFunc == nil, 0.0, sfent(r.SeparatorFunc))
+//@   ensures [C08,C15] sep-once: r.SeparatorFunc == nil ==> sfcalls == old(sfcalls) && pos == old(pos) && ctr == old(ctr)
+//@   ensures [C08] sep-called: r.SeparatorFunc != nil ==> sfcalls == old(sfcalls) + 1
